@@ -11,6 +11,7 @@ import CanvasProofs.Lemmas.C09Verdict
 import CanvasProofs.Lemmas.C09Intervals
 import CanvasProofs.Lemmas.C09Refine
 import CanvasProofs.Lemmas.C09Length
+import CanvasProofs.Lemmas.C09Polish
 /-!
 # C09 — Length, SplitAt and Reverse are consistent views of one curve
 
@@ -278,6 +279,26 @@ theorem splitAt_bezier_cuts_monotone {K : Type} [Field K] [LinearOrder K] [IsStr
       ∀ t ∈ monoClamp (fun a b => decide (a < b)) 0 inv, 0 ≤ t :=
   monoClamp_mono 0 inv
 
+/-- The polish loop of `invSpeedApprox` (56b2370; `Canvas.C09.polish`, run bit-exactly against the real
+SplitAt inside the SPLITAT correspondence), over an ordered field with exact operations, for ANY length
+function `fLength`, speed `fp`, step sign `h`, requested length `L` and tolerance: starting from an
+estimate between `tmin` and `tmax`, on exit
+* either the residual `|fLength(t) - L|` is within the tolerance (0.001·total in the code), or all 10
+  iterations were spent;
+* `t` lies between `lo` and `hi`, and `lo`, `hi` lie between `tmin` and `tmax` (bracket invariant, by
+  induction over the iterations; `Between` is order-free, so it covers arcs whose angle decreases). -/
+theorem polish_exit_and_bracket {K : Type} [Field K] [LinearOrder K] [IsStrictOrderedRing K]
+    (P : PolishOps K) (hP : ExactPolish P) (fL fp : K → K) (h L tol tmin tmax est : K)
+    (hest : Between tmin tmax est) :
+    let r := polishLoop P fL fp h L tol 10 ⟨est, tmin, tmax⟩
+    (r.converged = true → |fL r.st.t - L| ≤ tol) ∧ (r.converged = false → r.iters = 10) ∧
+      Between r.st.lo r.st.hi r.st.t ∧ Between tmin tmax r.st.lo ∧ Between tmin tmax r.st.hi ∧
+      Between tmin tmax (polish P fL fp h L tol tmin tmax est) := by
+  have hb : Bracket tmin tmax (⟨est, tmin, tmax⟩ : PState K) :=
+    ⟨hest, between_left tmin tmax, between_right tmin tmax⟩
+  obtain ⟨h1, h2, h3, _⟩ := polishLoop_spec hP fL fp h L tol tmin tmax 10 _ hb
+  exact ⟨h2, h3, h1.t, h1.lo, h1.hi, between_trans tmin tmax _ _ _ h1.lo h1.hi h1.t⟩
+
 /-- a position at the head of the (sorted) list that is not beyond the current position - a negative
 position, or a second 0 - is never selected and, the positions being handled in order, suppresses
 every later cut: such requests are outside the domain of the property (positions in [0, Length]) -/
@@ -452,7 +473,7 @@ example : ExactOps ratOps := ⟨rfl, fun _ _ => rfl, fun _ _ => rfl, fun _ _ => 
 third record (second subpath); 20 lies beyond the length 9 and remains -/
 example :
     (ivWalk ratOps [.move ⟨0, 0⟩, .line ⟨2, 0⟩, .line ⟨2, 3⟩, .move ⟨9, 9⟩, .line ⟨13, 9⟩]
-      [⟨2, [], 0, 0, 0, 0⟩, ⟨3, [], 0, 0, 0, 0⟩, ⟨4, [], 0, 0, 0, 0⟩] 0 (ivInit 0 [1, 2, 2, 6, 20])).map
+      [⟨2, [], fun _ e => e, 0, 0, 0, 0⟩, ⟨3, [], fun _ e => e, 0, 0, 0, 0⟩, ⟨4, [], fun _ e => e, 0, 0, 0, 0⟩] 0 (ivInit 0 [1, 2, 2, 6, 20])).map
       (fun s => (s.pieces, s.rem)) =
     some ([[⟨0, 0, 1⟩], [⟨0, 1, 2⟩], [⟨0, 2, 2⟩], [⟨0, 2, 2⟩, ⟨1, 0, 3⟩, ⟨2, 0, 1⟩], [⟨2, 1, 4⟩]], [20]) := by
   decide +kernel
@@ -476,6 +497,28 @@ example : StartsWithMove ([.line ⟨1, (2 : Int)⟩, .move ⟨0, 0⟩] : RPath I
 /-- Length of `M0 0 L3 0 M1 1 L1 5` with the taxicab segment length: 3 + 4 -/
 example : pathLength 0 (· + ·) (fun (a : Pt Int) c => (c.endp.x - a.x).natAbs + (c.endp.y - a.y).natAbs)
     ⟨0, 0⟩ [.move ⟨0, 0⟩, .line ⟨3, 0⟩, .move ⟨1, 1⟩, .line ⟨1, 5⟩] = 7 := by decide
+
+/-- exact polish operations over the rationals -/
+def ratPolish : PolishOps Rat where
+  zero := 0
+  add a b := a + b
+  sub a b := a - b
+  mul a b := a * b
+  div a b := a / b
+  abs a := |a|
+  le a b := decide (a ≤ b)
+  lt a b := decide (a < b)
+  half a := a / 2
+  copysign x s := if s < 0 then -|x| else |x|
+
+example : ExactPolish ratPolish :=
+  ⟨rfl, fun _ _ => rfl, fun _ _ => rfl, fun _ _ => rfl, fun _ => rfl, fun _ _ => rfl, fun _ _ => rfl, fun _ => rfl⟩
+
+/-- Newton on fLength(t) = t² (speed 2t) for L = 1/4 from the estimate 1 in [0,1] with tolerance 1/1000:
+converges in 3 steps to 3281/6560 ≈ 0.50015 -/
+example : (polishLoop ratPolish (fun t => t * t) (fun t => 2 * t) 1 (1/4) (1/1000) 10 ⟨1, 0, 1⟩).converged = true ∧
+    (polishLoop ratPolish (fun t => t * t) (fun t => 2 * t) 1 (1/4) (1/1000) 10 ⟨1, 0, 1⟩).iters = 3 := by
+  decide +kernel
 
 example : okCuts (0 : Rat) [1/4, 1/2, 1] :=
   ⟨by decide +kernel, by decide +kernel, by decide +kernel, trivial⟩
